@@ -480,6 +480,23 @@ def keeps_only_non_negligible(ctx, cb):
     return True
 
 
+def variant_discr(ctx, adt_variant):
+    """discriminant of an enum variant given by its path ('std::option::Option::None', 'mod::Enum::Variant')"""
+    v = _variant_of(adt_variant)
+    if v is not None: return V_DISCR[v]
+    owner, _, name = adt_variant.rpartition('::')
+    a = ctx.F.adts.get(owner)
+    if a is None: return None
+    for x in a['variants']:
+        if x['name'] == name: return x['discr']
+    return None
+
+
+def node_of_place(pl):
+    from ..dataflow import node_of
+    return node_of(pl)
+
+
 def negligible_tests(ctx, body, blocks):
     """NEGLIGIBLE idioms: comparisons that decide whether an f64 is (numerically) zero.
        |x| <  EPSILON, |x| <= EPSILON, EPSILON > |x|, ... (any order / strictness; f64::EPSILON only)
@@ -560,13 +577,27 @@ def export_rules(ctx, name, keyty, qubo):
     from_item = lambda s: nextc in s.call_objs
     map_rooted = lambda o: rooted_in(body, o, lambda c: c in mapcalls)
     ctx.check(all(body.dominates(header, e) for e in body.strict_ok_exits()), R + '/loop/dominates', 'T-MUSTCALL', body.name, 'term loop does not dominate the Ok-exit', body.site(nextc.bb))
+    # STAGED LOOPS (loop fission): the terms may reach the writer loop through a collection filled by an earlier loop over the terms
+    # (`let terms = it.filter(..).map(..).collect::<..>(); for t in terms { .. }`).  A stage = (loop, calls that hand the item on).
+    # Facts about a term (skip tests, emptiness of its ids, the key conversion and its error) may be established in any stage.
+    def feeds(up, down):
+        sd = sl(down[0].args[0])
+        return [c for c in body.calls if c.bb in up[4] and c.item in ('push', 'push_back', 'insert', 'extend') and c in sd.call_objs and up[0] in sl(c.args[-1]).call_objs]
+    stages = []; cur = lo
+    for _ in range(4):
+        ups = [(u, feeds(u, cur)) for u in loops if u is not cur and not (u[4] & cur[4]) and body.dominates(u[1], cur[1]) and feeds(u, cur)]
+        if len(ups) != 1: break
+        stages.insert(0, ups[0]); cur = ups[0][0]
+    stage_loops = [u for u, f in stages] + [lo]
+    any_item = lambda s: any(l[0] in s.call_objs for l in stage_loops)
     # adaptors that survive normalisation (pipeline kept in a local): only a `filter` that is the skip test itself may drop terms
     restr = []
-    for x in sl(nextc.args[0]).call_objs:
-        if x.item not in RESTRICTING or 'Iterator' not in (x.trait or ''): continue
-        cbs = [ctx.F.bodies.get(cn) for cn in closure_of_operand(body, x.args[1])] if x.item == 'filter' and len(x.args) == 2 else []
-        if cbs and all(cb is not None and cb.argc >= 2 and keeps_only_non_negligible(ctx, cb) for cb in cbs): continue
-        restr.append(x.item)
+    for l_ in stage_loops:
+        for x in sl(l_[0].args[0]).call_objs:
+            if x.item not in RESTRICTING or 'Iterator' not in (x.trait or ''): continue
+            cbs = [ctx.F.bodies.get(cn) for cn in closure_of_operand(body, x.args[1])] if x.item == 'filter' and len(x.args) == 2 else []
+            if cbs and all(cb is not None and cb.argc >= 2 and keeps_only_non_negligible(ctx, cb) for cb in cbs): continue
+            if x.item not in restr: restr.append(x.item)
     ctx.check(not restr, R + '/loop/all-items', 'T-LOOPMUST', body.name, 'the term iterator is restricted by %s' % sorted(restr), body.site(nextc.bb))
     # keys only through the canonicalising constructors
     aggs = [bi for bi, st in body.stmts() if st['rv']['k'] == 'agg' and re.search(r'sorted_ids::Binary(Ids|IdPair)$', st['rv']['adt'])]
@@ -575,7 +606,7 @@ def export_rules(ctx, name, keyty, qubo):
     badk = [c for c in W if not (sl(c.args[KEYED[c.item]]).has_call(conv) and from_item(sl(c.args[KEYED[c.item]])))]
     ctx.check(not badk, R + '/keys/from-term-ids', 'T-CARRY', body.name, 'map key is not the canonicalised id set of the term', body.site((badk or W)[0].bb), sites=len(W))
     if qubo:
-        tf = [c for c in body.calls if re.search(CONV_PAIR, c.name) and c.bb in blocks]
+        tf = [c for c in body.calls if re.search(CONV_PAIR, c.name) and any(c.bb in l_[4] for l_ in stage_loops) and any_item(sl(c.args[0]))]
         ctx.check(len(tf) >= 1, R + '/guard/degree/try_from', 'T-GUARD', body.name, 'BinaryIdPair::try_from not called', body.site())
         # path formulation of `?` / match / let-else / map_err..: if try_from returns Err, no Ok-exit is reachable
         leaks = []
@@ -697,14 +728,41 @@ def export_rules(ctx, name, keyty, qubo):
     via = set(wbbs) | rm_bbs | tiny
     if qubo:
         # constant term: empty id list => added to the offset, which is returned unchanged
-        def on_ids(c): return from_item(sl(c.args[0]))
+        def on_ids(c): return any_item(sl(c.args[0]))
         okc = []
+        empties = []          # blocks of the writer loop entered exactly when the term has no ids
         for l, bb, emp, recv in emptiness_tests(body, on_ids):
-            if bb not in blocks: continue
             for sb, neg in T.bool_flow(body, l):
                 t, f = T.switch_sides(body, sb, neg)
-                empty_bb = t if emp else f
-                if empty_bb is None: continue
+                e_bb, n_bb = (t, f) if emp else (f, t)
+                if e_bb is None or n_bb is None: continue
+                if bb in blocks: empties.append(e_bb); continue
+                # EMPTY test in an earlier stage: its outcome travels as a MARKER — an enum variant (Option::None, ..) built only on
+                # the empty side, another one only on the other side, inside the record handed on; the writer loop tests the marker
+                st_ = [u for u, f_ in stages if bb in u[4]]
+                if not st_: continue
+                ereg = body.reach([e_bb], stop={st_[0][1]}); nreg = body.reach([n_bb], stop={st_[0][1]})
+                mk = {}
+                for bi, st in body.stmts():
+                    rv = st['rv']
+                    if rv['k'] == 'agg' and '::' in rv['adt'] and not st['dst']['p'] and ((bi in ereg) != (bi in nreg)):
+                        mk.setdefault(st['dst']['l'], {})[bi in ereg] = rv['adt']
+                for ml, sides in mk.items():
+                    if set(sides) != {True, False} or sides[True] == sides[False]: continue
+                    d_empty = variant_discr(ctx, sides[True]); d_other = variant_discr(ctx, sides[False])
+                    if d_empty is None or d_other is None: continue
+                    for bi2 in sorted(blocks):
+                        t2 = body.blocks[bi2]['term']
+                        if t2['k'] != 'switch' or t2['d']['k'] == 'const' or t2['d']['pl']['p']: continue
+                        dd = single_def(body, t2['d']['pl']['l'])
+                        if not dd or dd[0] != 'stmt' or dd[2]['rv']['k'] != 'discr': continue
+                        ms = S.backslice(body, [node_of_place(dd[2]['rv']['pl'])])
+                        if ml not in ms.locals or nextc not in ms.call_objs: continue
+                        m2 = {v: tg for v, tg in t2['ts']}
+                        te, to = m2.get(d_empty, t2['else']), m2.get(d_other, t2['else'])
+                        if te != to: empties.append(te)
+        for empty_bb in empties:
+            for _once in (0,):
                 treg = body.reach([empty_bb], stop={header})
                 if treg & wbbs: continue
                 for bi, st in body.stmts():
@@ -720,7 +778,19 @@ def export_rules(ctx, name, keyty, qubo):
         if okc: constant_rules(ctx, R, body, okc[0][0], okc[0][1])
         ctx.check(bool(okc), R + '/constant/empty-ids', 'T-BRANCHFX', body.name, 'terms with no ids are not accumulated into the offset', body.site())
     ctx.counters['cfg_paths'] += 1
-    ctx.check(must_pass_v(body, some_bb, {header}, via), R + '/loop/every-term', 'T-LOOPMUST', body.name, 'a term can bypass the map without being tiny', body.site(nextc.bb))
+    lost = None if must_pass_v(body, some_bb, {header}, via) else nextc.bb
+    for u, fcalls in stages:
+        # earlier stage: every term is handed on to the next stage or is negligible (an Err leaves the loop)
+        ctx.counters['cfg_paths'] += 1
+        utiny = set()
+        for bi, st, x, small_true, kind in negligible_tests(ctx, body, u[4]):
+            if u[0] not in sl(x).call_objs: continue
+            for sb, neg in T.bool_flow(body, st['dst']['l']):
+                t, f = T.switch_sides(body, sb, neg)
+                small = t if small_true else f
+                if small is not None: utiny.add(small)
+        if lost is None and not must_pass_v(body, u[2], {u[1]}, {c.bb for c in fcalls} | utiny): lost = u[0].bb
+    ctx.check(lost is None, R + '/loop/every-term', 'T-LOOPMUST', body.name, 'a term can bypass the map without being tiny', body.site(lost if lost is not None else nextc.bb), stages=len(stages) + 1)
     # result is the accumulated map
     rets = [(bi, st) for bi, k, st in body.ret_assignments() if k == 'ok']
     badr = [bi for bi, r in rets if not any(c in sl(r['rv']['ops'][0]).call_objs for c in W)]
